@@ -30,15 +30,23 @@ swu(l, msg)                                            -> <W>_{4l}         [bake
 swu_point(l, msg)                                      -> (x, y)
 bmqv_step2(st) / bmqv_step3(st, M1) / bmqv_step4(st, M2) / bmqv_step5(st, M3)
 bsts_step2 / bsts_step3 / bsts_step4 / bsts_step5
+bsts_seal(st, side, s, cert[, Va])                     -> M2 (side A) / M3 (side B) carrying a CHOSEN s and certificate,
+                                                          encrypted under K2 and tagged under K1 of the state (what a party
+                                                          that holds the session keys can send)
+bauth_t_start / bauth_ct_start, bauth_step2(ct, certt) / bauth_step3(t, M1) / bauth_step4(ct, M2) / bauth_step5(t, M3),
+bauth_seal(st, s, cert), run_bauth(...)                BAUTH of STB 34.101.79 (T = terminal = side A, CT = token = side B)
 bpace_step2 / bpace_step3 / bpace_step4 / bpace_step5 / bpace_step6
 bmqv_start(l, side, d, cert, cert_peer, tape, ...)     -> state dict       (see docstrings)
 run_bmqv(l, da, db, certa, certb, tapea, tapeb, helloa=None, hellob=None, kca=True, kcb=True)
 run_bsts(l, da, db, certa, certb, tapea, tapeb, helloa=None, hellob=None)
 run_bpace(l, pwd, tapea, tapeb, helloa=None, hellob=None, kca=True, kcb=True)
+run_bauth(l, dt, dct, certt, certct, tapet, tapect, helloa=None, hellob=None, kcb=True)
         -> dict(M1=.., M2=.., M3=.., [M4=..], keya=.., keyb=.., ua=.., ub=.., useda=.., usedb=..)
 BakeError(code): BAD_POINT, BAD_CERT, AUTH, BAD_RNG, BAD_INPUT, BAD_LOGIC
 
-`python3 bake.py --selftest` checks the model against vectors/bake.json ONLY.
+`python3 bake.py --selftest` checks the model against vectors/bake.json ONLY.  BAUTH has no vector there (btok_test.c
+only checks that both keys agree): the BAUTH model is validated by the same self-consistency (run_bauth: both keys
+agree, M3 accepted) and, in the C04 explorer, message by message against the transcripts of the real code.
 """
 import json
 import os
@@ -286,6 +294,17 @@ def _bsts_keys(st, K):
     st["K0"], st["K1"], st["K2"] = _krp(K, 0), _krp(K, 1), _krp(K, 2)
 
 
+def bsts_seal(st, side, s, cert, Va=None):
+    """The authenticated part of M2 (side A: Ya || Ta, preceded by <Va>_{4l}) resp. M3 (side B: Yb || Tb) for a
+    chosen number s in {0..2^{2l}-1} and a chosen certificate, under the session keys K1, K2 of the state:
+        Y = belt-cfb(<s>_{2l} || cert, K2, I),  T = belt-mac(Y || I, K1),  I = 0^128 (A) / 1^128 (B)."""
+    l = st["l"]
+    iv = ZERO16 if side == "A" else ONES16
+    Y = belt.cfb_encr(st["K2"], iv, _le(l, s) + bytes(cert))
+    T = belt.mac(st["K1"], Y + iv)
+    return (_pt(l, Va) if side == "A" else b"") + Y + T
+
+
 def bsts_step3(st, M1):
     """A: check Vb; ua, Va = ua G; t; sa = (ua - (2^l + t) da) mod q; K = ua Vb; keys;
     Ya = belt-cfb(<sa>_{2l} || certa, K2, 0^128); Ta = belt-mac(Ya || 0^128, K1);
@@ -301,10 +320,8 @@ def bsts_step3(st, M1):
     t = _t(l, Va, Vb)
     sa = (st["u"] - (2 ** l + t) * st["d"]) % q
     _bsts_keys(st, E.mul(st["u"], Vb))
-    Ya = belt.cfb_encr(st["K2"], ZERO16, _le(l, sa) + st["cert"])
-    Ta = belt.mac(st["K1"], Ya + ZERO16)
     st.update(Va=Va, Vb=Vb, t=t, s=sa)
-    return _pt(l, Va) + Ya + Ta
+    return bsts_seal(st, "A", sa, st["cert"], Va)
 
 
 def bsts_step4(st, M2):
@@ -330,10 +347,8 @@ def bsts_step4(st, M2):
     if E.add(E.mul(sa, G), E.mul(2 ** l + t, Qa)) != Va:
         raise BakeError("AUTH")
     sb = (st["u"] - (2 ** l + t) * st["d"]) % q
-    Yb = belt.cfb_encr(st["K2"], ONES16, _le(l, sb) + st["cert"])
-    Tb = belt.mac(st["K1"], Yb + ONES16)
     st.update(Va=Va, t=t, s=sb, peer_cert=certa)
-    return Yb + Tb
+    return bsts_seal(st, "B", sb, st["cert"])
 
 
 def bsts_step5(st, M3):
@@ -467,6 +482,129 @@ def run_bpace(l, pwd, tapea, tapeb, helloa=None, hellob=None, kca=True, kcb=True
         bpace_step6(B, out["M4"])
     out.update(keya=A["K0"], keyb=B["K0"], ua=A["u"], ub=B["u"], useda=A["pos"], usedb=B["pos"],
                Ra=A["Ra"], Rb=B["Rb"], W=A["W"])
+    return out
+
+
+# --------------------------------------------------------------------------
+# BAUTH (STB 34.101.79; bee2: btokBAuthT* / btokBAuthCT*).  T = terminal (side A of bake_settings), CT = token (side B).
+# T always confirms the key (kca), CT authenticates itself when kcb.
+#   2 (CT): Rct <-R {0,1}^l, uct <-R {1..q-1}, Vct = uct G, K = <uct Qt>_256, M1 = <Vct>_{4l} || belt-keywrap(Rct, 0^128, K)
+#   3 (T):  Vct in E*, K = <dt Vct>_256, Rct = belt-keyunwrap(.., 0^128, K); [Rt <-R {0,1}^128];
+#           Y = belt-hash(Rct [|| Rt] || helloa || hellob), K0, K1 [, K2] = belt-keyrep(Y, 1^96, <i>_128, 256);
+#           Tt = belt-mac(0^128, K1), M2 = Tt [|| Rt]
+#   4 (CT): Y, keys, check Tt; [t = <belt-hash(<Vct>_{2l} || Rt)>_l, sct = (uct - (2^l + t) dct) mod q,
+#           Zct = belt-cfb(<sct>_{2l} || certct, K2, 0^128), Tct = belt-mac(Zct, K1), M3 = Zct || Tct]
+#   5 (T):  check Tct; sct || certct = decrypt(Zct); sct in {0..q-1}; certct -> Qct in E*; sct G + (2^l + t) Qct == Vct
+# tapes: CT: Rct (l/8 octets) then uct;  T: Rt (16 octets, only when kcb).
+# --------------------------------------------------------------------------
+
+def _bauth_start(l, side, d, cert, tape, helloa, hellob, kcb, certval):
+    st = _start(l, side, tape, helloa, hellob, True, kcb, certval)
+    st["d"] = bign._as_int(l, d)
+    st["cert"] = bytes(cert)
+    _cert_key(st, st["cert"])
+    return st
+
+
+def bauth_t_start(l, dt, certt, tape, helloa=None, hellob=None, kcb=True, certval=None):
+    return _bauth_start(l, "A", dt, certt, tape, helloa, hellob, kcb, certval)
+
+
+def bauth_ct_start(l, dct, certct, tape, helloa=None, hellob=None, kcb=True, certval=None):
+    return _bauth_start(l, "B", dct, certct, tape, helloa, hellob, kcb, certval)
+
+
+def _bauth_keys(st, Rct, Rt):
+    Y = belt.hash(Rct + (Rt if st["kcb"] else b"") + _hello(st))
+    st["K0"], st["K1"] = _krp(Y, 0), _krp(Y, 1)
+    if st["kcb"]:
+        st["K2"] = _krp(Y, 2)
+
+
+def bauth_step2(st, certt):
+    l = st["l"]
+    ps, E, G, q, no = _ctx(l)
+    Qt = _cert_key(st, certt)
+    st["Rct"] = _draw_raw(st, no // 2)
+    st["u"] = _draw_u(st)
+    st["Vct"] = E.mul(st["u"], G)
+    K = E.mul(st["u"], Qt)
+    return _pt(l, st["Vct"]) + belt.kwp_wrap(_le(l, K[0])[:32], st["Rct"], ZERO16)
+
+
+def bauth_step3(st, M1):
+    l = st["l"]
+    ps, E, G, q, no = _ctx(l)
+    M1 = bytes(M1)
+    if len(M1) != 2 * no + no // 2 + 16:
+        raise BakeError("BAD_INPUT")
+    Vct = _point_in(l, M1[:2 * no])
+    K = E.mul(st["d"], Vct)
+    Rct = belt.kwp_unwrap(_le(l, K[0])[:32], M1[2 * no:], ZERO16)
+    if Rct is None:
+        raise BakeError("AUTH")
+    Rt = _draw_raw(st, 16) if st["kcb"] else b""
+    _bauth_keys(st, Rct, Rt)
+    st.update(Vct=Vct, Rt=Rt)
+    return belt.mac(st["K1"], ZERO16) + Rt
+
+
+def bauth_seal(st, s, cert):
+    """M3 = Zct || Tct for a chosen number s in {0..2^{2l}-1} and a chosen certificate under the session keys of the state."""
+    Z = belt.cfb_encr(st["K2"], ZERO16, _le(st["l"], s) + bytes(cert))
+    return Z + belt.mac(st["K1"], Z)
+
+
+def bauth_step4(st, M2):
+    l = st["l"]
+    ps, E, G, q, no = _ctx(l)
+    M2 = bytes(M2)
+    if len(M2) != 8 + (16 if st["kcb"] else 0):
+        raise BakeError("BAD_INPUT")
+    Rt = M2[8:]
+    _bauth_keys(st, st["Rct"], Rt)
+    if belt.mac(st["K1"], ZERO16) != M2[:8]:
+        raise BakeError("AUTH")
+    if not st["kcb"]:
+        return b""
+    t = _int(belt.hash(_le(l, st["Vct"][0]) + Rt)[:l // 8])
+    st["t"] = t
+    st["s"] = (st["u"] - (2 ** l + t) * st["d"]) % q
+    return bauth_seal(st, st["s"], st["cert"])
+
+
+def bauth_step5(st, M3):
+    l = st["l"]
+    ps, E, G, q, no = _ctx(l)
+    if not st["kcb"]:
+        raise BakeError("BAD_LOGIC")
+    M3 = bytes(M3)
+    if len(M3) < no + 8:
+        raise BakeError("BAD_INPUT")
+    Z, T = M3[:-8], M3[-8:]
+    if belt.mac(st["K1"], Z) != T:
+        raise BakeError("AUTH")
+    x = belt.cfb_decr(st["K2"], ZERO16, Z)
+    s, cert = _int(x[:no]), x[no:]
+    if s >= q:
+        raise BakeError("AUTH")
+    Qct = _cert_key(st, cert)
+    t = _int(belt.hash(_le(l, st["Vct"][0]) + st["Rt"])[:l // 8])
+    if E.add(E.mul(s, G), E.mul(2 ** l + t, Qct)) != st["Vct"]:
+        raise BakeError("AUTH")
+    st["peer_cert"] = cert
+
+
+def run_bauth(l, dt, dct, certt, certct, tapet, tapect, helloa=None, hellob=None, kcb=True, certval=None):
+    CT = bauth_ct_start(l, dct, certct, tapect, helloa, hellob, kcb, certval)
+    T = bauth_t_start(l, dt, certt, tapet, helloa, hellob, kcb, certval)
+    out = {}
+    out["M1"] = bauth_step2(CT, certt)
+    out["M2"] = bauth_step3(T, out["M1"])
+    out["M3"] = bauth_step4(CT, out["M2"])
+    if kcb:
+        bauth_step5(T, out["M3"])
+    out.update(keya=T["K0"], keyb=CT["K0"], ub=CT["u"], useda=T["pos"], usedb=CT["pos"], sb=CT.get("s"))
     return out
 
 
